@@ -811,4 +811,346 @@ theorem seq_inv (ops : List Op) : ∀ (w : Client × State), Inv w.1 w.2 → His
     obtain ⟨c, s⟩ := w
     exact ih _ (inv_step h op hok.1) hok.2
 
+/-! ## the bridge: `runMacro` on the sequential schedule is `seqRun` -/
+
+/-- nothing in flight, nothing queued, no configuration request outstanding -/
+def Idle (y : Sys) : Prop := y.run = [] ∧ y.queue = [] ∧ y.pend = []
+
+/-- the idle system -/
+def idleSys (s : State) (nid : Nat) : Sys := { st := s, run := [], queue := [], pend := [], nextId := nid }
+
+/-- one handler in flight, not waiting -/
+def solo (s : State) (id : Nat) (segs : List Seg) (r : Regs) (nid : Nat) : Sys :=
+  { st := s, run := [{ id := id, segs := segs, regs := r, waiting := false }], queue := [], pend := [],
+    nextId := nid }
+
+/-- the number of configuration requests a handler running alone really sends (`runSeq`'s recursion,
+counting) -/
+def pullsRun (ck : CfgV) : State → Regs → List Seg → Nat
+  | _, _, [] => 0
+  | s, r, seg :: rest =>
+    if r.skip > 0 then pullsRun ck s { r with skip := r.skip - 1 } rest
+    else match seg with
+      | .pull => pullsRun ck s { r with reply := ck } rest + 1
+      | seg => pullsRun ck (step s r seg).1 (step s r seg).2 rest
+
+theorem pullsRun_le (ck : CfgV) : ∀ (segs : List Seg) (s : State) (r : Regs),
+    pullsRun ck s r segs ≤ pullCount segs := by
+  intro segs
+  induction segs with
+  | nil => intro s r; simp [pullsRun, pullCount]
+  | cons seg rest ih =>
+    intro s r
+    unfold pullsRun
+    by_cases hs : r.skip > 0
+    · simp only [hs, if_true]
+      have := ih s { r with skip := r.skip - 1 }
+      cases seg <;> simp only [pullCount] <;> omega
+    · simp only [hs, if_false]
+      cases seg <;> simp only [pullCount] <;> first | exact ih _ _ | (have := ih s { r with reply := ck }; omega)
+
+theorem Idle.eq {y : Sys} (h : Idle y) : y = idleSys y.st y.nextId := by
+  obtain ⟨st, run, queue, pend, nid⟩ := y
+  obtain ⟨h1, h2, h3⟩ := h
+  simp only at h1 h2 h3
+  subst h1 h2 h3
+  rfl
+
+theorem idleSys_idle (s : State) (nid : Nat) : Idle (idleSys s nid) := ⟨rfl, rfl, rfl⟩
+
+theorem settle_idle (fuel : Nat) (s : State) (nid : Nat) : settle fuel (idleSys s nid) = idleSys s nid := by
+  cases fuel <;> simp [settle, idleSys, runnable]
+
+/-- answers nobody waits for change nothing -/
+theorem replies_idle (s : State) (nid : Nat) (ck : CfgV) (n : Nat) :
+    runMacro (idleSys s nid) (List.replicate n (.reply 0 ck)) = idleSys s nid := by
+  induction n with
+  | zero => rfl
+  | succ n ih =>
+    have h1 : macroStep (idleSys s nid) (.reply 0 ck) = idleSys s nid := by
+      simp only [macroStep, micro]
+      have : reply (idleSys s nid) 0 ck = idleSys s nid := by simp [reply, idleSys]
+      rw [this, settle_idle]
+    simp only [runMacro, List.replicate_succ, List.foldl_cons, h1]
+    exact ih
+
+theorem stepHandler_solo_nil (s : State) (id : Nat) (r : Regs) (nid : Nat) :
+    stepHandler (solo s id [] r nid) id = idleSys s nid := by
+  simp [stepHandler, solo, findHandler, dropHandler, idleSys]
+
+theorem stepHandler_solo_skip (s : State) (id : Nat) (seg : Seg) (rest : List Seg) (r : Regs) (nid : Nat)
+    (hs : r.skip > 0) :
+    stepHandler (solo s id (seg :: rest) r nid) id = solo s id rest { r with skip := r.skip - 1 } nid := by
+  simp [stepHandler, solo, findHandler, setHandler, hs]
+
+theorem stepHandler_solo_step (s : State) (id : Nat) (seg : Seg) (rest : List Seg) (r : Regs) (nid : Nat)
+    (hs : ¬ r.skip > 0) (hp : seg ≠ .pull) :
+    stepHandler (solo s id (seg :: rest) r nid) id
+      = solo (step s r seg).1 id rest (step s r seg).2 nid := by
+  cases seg <;> first | exact absurd rfl hp | simp [stepHandler, solo, findHandler, setHandler, hs]
+
+theorem settle_waiting (fuel : Nat) (s : State) (id : Nat) (segs : List Seg) (r : Regs) (nid : Nat) :
+    settle fuel { st := s, run := [{ id := id, segs := segs, regs := r, waiting := true }], queue := [],
+                  pend := [id], nextId := nid }
+      = { st := s, run := [{ id := id, segs := segs, regs := r, waiting := true }], queue := [],
+          pend := [id], nextId := nid } := by
+  cases fuel <;> simp [settle, runnable]
+
+theorem stepHandler_solo_pull (s : State) (id : Nat) (rest : List Seg) (r : Regs) (nid : Nat)
+    (hs : ¬ r.skip > 0) :
+    stepHandler (solo s id (.pull :: rest) r nid) id
+      = { st := s, run := [{ id := id, segs := .pull :: rest, regs := r, waiting := true }], queue := [],
+          pend := [id], nextId := nid } := by
+  simp [stepHandler, solo, findHandler, setHandler, hs]
+
+theorem reply_waiting (s : State) (id : Nat) (rest : List Seg) (r : Regs) (nid : Nat) (ck : CfgV) :
+    reply { st := s, run := [{ id := id, segs := .pull :: rest, regs := r, waiting := true }], queue := [],
+            pend := [id], nextId := nid } 0 ck
+      = solo s id rest { r with reply := ck } nid := by
+  simp [reply, solo, findHandler, setHandler, removeNth]
+
+theorem settle_solo_succ (fuel : Nat) (s : State) (id : Nat) (segs : List Seg) (r : Regs) (nid : Nat) :
+    settle (fuel + 1) (solo s id segs r nid) = settle fuel (stepHandler (solo s id segs r nid) id) := by
+  simp [settle, solo, runnable]
+
+/-- **One handler alone under the scheduler.** A handler that is the only one in flight, given at
+least as many answers as it sends configuration requests, runs to completion and leaves the idle
+system in the state `runSeq` computes. `fuel` is what is left of the current `settle`; every later
+`settle` starts with `settleFuel`, hence the two bounds. -/
+theorem solo_run (ck : CfgV) (id nid : Nat) : ∀ (segs : List Seg) (fuel : Nat) (s : State) (r : Regs) (n : Nat),
+    segs.length < fuel → segs.length < settleFuel → pullsRun ck s r segs ≤ n →
+    runMacro (settle fuel (solo s id segs r nid)) (List.replicate n (.reply 0 ck))
+      = idleSys (runSeq ck s r segs) nid := by
+  intro segs
+  induction segs with
+  | nil =>
+    intro fuel s r n hf _ _
+    obtain ⟨f, rfl⟩ : ∃ f, fuel = f + 1 := ⟨fuel - 1, by simp at hf; omega⟩
+    rw [settle_solo_succ, stepHandler_solo_nil, settle_idle, replies_idle]
+    rfl
+  | cons seg rest ih =>
+    intro fuel s r n hf hF hn
+    obtain ⟨f, rfl⟩ : ∃ f, fuel = f + 1 := ⟨fuel - 1, by simp at hf; omega⟩
+    have hf' : rest.length < f := by simp at hf; omega
+    have hF' : rest.length < settleFuel := by simp at hF; omega
+    rw [settle_solo_succ]
+    by_cases hs : r.skip > 0
+    · rw [stepHandler_solo_skip _ _ _ _ _ _ hs]
+      have e1 : runSeq ck s r (seg :: rest) = runSeq ck s { r with skip := r.skip - 1 } rest := by
+        simp [runSeq, hs]
+      have e2 : pullsRun ck s r (seg :: rest) = pullsRun ck s { r with skip := r.skip - 1 } rest := by
+        simp [pullsRun, hs]
+      rw [e1]
+      exact ih f s _ n hf' hF' (e2 ▸ hn)
+    · by_cases hp : seg = .pull
+      · subst hp
+        rw [stepHandler_solo_pull _ _ _ _ _ hs, settle_waiting]
+        have e1 : runSeq ck s r (.pull :: rest) = runSeq ck s { r with reply := ck } rest := by
+          simp [runSeq, hs]
+        have e2 : pullsRun ck s r (.pull :: rest) = pullsRun ck s { r with reply := ck } rest + 1 := by
+          simp [pullsRun, hs]
+        obtain ⟨n', rfl⟩ : ∃ n', n = n' + 1 := ⟨n - 1, by omega⟩
+        rw [e1]
+        simp only [runMacro, List.replicate_succ, List.foldl_cons, macroStep, micro, reply_waiting]
+        exact ih settleFuel s _ n' hF' hF' (by omega)
+      · rw [stepHandler_solo_step _ _ _ _ _ _ hs hp]
+        have e1 : runSeq ck s r (seg :: rest) = runSeq ck (step s r seg).1 (step s r seg).2 rest := by
+          cases seg <;> first | exact absurd rfl hp | simp [runSeq, hs]
+        have e2 : pullsRun ck s r (seg :: rest) = pullsRun ck (step s r seg).1 (step s r seg).2 rest := by
+          cases seg <;> first | exact absurd rfl hp | simp [pullsRun, hs]
+        rw [e1]
+        exact ih f _ _ n hf' hF' (e2 ▸ hn)
+
+/-- **A message to an idle server, then its answers** (`n` of them, at least as many as the handler
+sends requests; the program shorter than the scheduler's fuel): the server is idle again, in the
+state `handle` computes, one handler id consumed. -/
+theorem macro_handle (ck : CfgV) (s : State) (nid : Nat) (m : Msg) (n : Nat)
+    (hF : (prog m).1.length < settleFuel) (hn : pullsRun ck s (prog m).2 (prog m).1 ≤ n) :
+    runMacro (idleSys s nid) (.recv m :: List.replicate n (.reply 0 ck)) = idleSys (handle ck s m) (nid + 1) := by
+  have h0 : micro (idleSys s nid) (.recv m) = solo s nid (prog m).1 (prog m).2 (nid + 1) := by
+    simp [micro, startOrQueue, idleSys, solo, maxConcurrency]
+  simp only [runMacro, List.foldl_cons, macroStep, h0]
+  exact solo_run ck nid (nid + 1) _ settleFuel s _ n hF hF hn
+
+theorem runMacro_append (y : Sys) (as bs : List Act) :
+    runMacro y (as ++ bs) = runMacro (runMacro y as) bs := by
+  simp [runMacro, List.foldl_append]
+
+theorem macro_disk (s : State) (nid : Nat) (u : Url) (t : Option Text) :
+    runMacro (idleSys s nid) [.disk u t] = idleSys { s with disk := setF s.disk u t } nid := by
+  simp only [runMacro, List.foldl_cons, List.foldl_nil, macroStep, micro]
+  exact settle_idle _ _ _
+
+/-- the messages of a history -/
+def msgCount : List Op → Nat
+  | [] => 0
+  | .msg _ :: ops => msgCount ops + 1
+  | .disk _ _ :: ops => msgCount ops
+
+/-- `actsOfOp` with a free number of answers -/
+def actsOfOpN (c : Client) (n : Nat) : Op → List Act
+  | .disk u t => [.disk u t]
+  | .msg m => .recv m :: List.replicate n (.reply 0 (clientStep c m).ck)
+
+/-- `seqActs` with a free number of answers after every message: the schedules "each handler runs
+alone" (`seqActs c ops` is the one with `pullCount` answers, `seqActs_eq_N`) -/
+def seqActsN : Client → List (Op × Nat) → List Act
+  | _, [] => []
+  | c, (op, n) :: ops => actsOfOpN c n op ++ seqActsN (clientOfOp c op) ops
+
+/-- every message is followed by at least as many answers as its handler — running alone from the
+state the history has reached — sends requests, and no program exhausts the scheduler's fuel -/
+def Answered : Client × State → List (Op × Nat) → Prop
+  | _, [] => True
+  | w, (op, n) :: ops =>
+    (match op with
+      | .disk _ _ => True
+      | .msg m => (prog m).1.length < settleFuel ∧
+          pullsRun (clientStep w.1 m).ck w.2 (prog m).2 (prog m).1 ≤ n) ∧
+    Answered (seqStep w op) ops
+
+theorem clientOfAct_replies (c : Client) (n : Nat) (k : CfgV) :
+    (List.replicate n (Act.reply 0 k)).foldl clientOfAct c = c := by
+  induction n with
+  | zero => rfl
+  | succ n ih => simpa [List.replicate_succ, clientOfAct] using ih
+
+theorem client_actsOfOpN (c : Client) (n : Nat) (op : Op) :
+    (actsOfOpN c n op).foldl clientOfAct c = clientOfOp c op := by
+  cases op with
+  | disk u t => rfl
+  | msg m => simp [actsOfOpN, clientOfOp, clientOfAct, clientOfAct_replies]
+
+theorem seqStep_client (w : Client × State) (op : Op) : (seqStep w op).1 = clientOfOp w.1 op := by
+  cases op <;> rfl
+
+/-- **`runMacro` on a one-handler-at-a-time schedule is `seqRun`.** From an idle server, a history
+whose every message is followed at once by enough answers (`Answered`) leaves the server idle, in
+exactly the state `seqRun` computes (so with the same publication log, dictionaries, documents and
+configuration), and the client the schedule implies is `seqRun`'s client. -/
+theorem macro_is_seq_N : ∀ (ops : List (Op × Nat)) (c : Client) (s : State) (nid : Nat),
+    Answered (c, s) ops →
+    runMacro (idleSys s nid) (seqActsN c ops)
+      = idleSys (seqRun (c, s) (ops.map (·.1))).2 (nid + msgCount (ops.map (·.1))) ∧
+    (seqActsN c ops).foldl clientOfAct c = (seqRun (c, s) (ops.map (·.1))).1 := by
+  intro ops
+  induction ops with
+  | nil => intro c s nid _; exact ⟨rfl, rfl⟩
+  | cons opn ops ih =>
+    intro c s nid h
+    obtain ⟨op, n⟩ := opn
+    obtain ⟨h1, h2⟩ := h
+    simp only [seqActsN, runMacro_append, List.foldl_append, client_actsOfOpN, List.map_cons, seqRun,
+      List.foldl_cons]
+    cases op with
+    | disk u t =>
+      have := ih c { s with disk := setF s.disk u t } nid h2
+      simp only [actsOfOpN, macro_disk, clientOfOp, msgCount]
+      exact this
+    | msg m =>
+      have := ih (clientStep c m) (handle (clientStep c m).ck s m) (nid + 1) h2
+      simp only [actsOfOpN, clientOfOp, msgCount, macro_handle _ _ _ _ _ h1.1 h1.2]
+      rw [show nid + (msgCount (ops.map (·.1)) + 1) = nid + 1 + msgCount (ops.map (·.1)) by omega]
+      exact this
+
+/-- every handler's program is shorter than the scheduler's fuel (`settleFuel` = 4096 segments) -/
+def Fits (ops : List Op) : Prop := ∀ m, Op.msg m ∈ ops → (prog m).1.length < settleFuel
+
+/-- the annotation that makes `seqActsN` the canonical schedule -/
+def withPulls (ops : List Op) : List (Op × Nat) :=
+  ops.map fun op => (op, match op with | .disk _ _ => 0 | .msg m => pullCount (prog m).1)
+
+theorem seqActs_eq_N : ∀ (ops : List Op) (c : Client), seqActs c ops = seqActsN c (withPulls ops) := by
+  intro ops
+  induction ops with
+  | nil => intro c; rfl
+  | cons op ops ih =>
+    intro c
+    cases op with
+    | disk u t => simp only [seqActs, withPulls, List.map_cons, seqActsN, actsOfOp, actsOfOpN]; rw [← withPulls, ← ih]
+    | msg m => simp only [seqActs, withPulls, List.map_cons, seqActsN, actsOfOp, actsOfOpN]; rw [← withPulls, ← ih]
+
+theorem withPulls_fst (ops : List Op) : (withPulls ops).map (·.1) = ops := by
+  simp [withPulls, List.map_map, Function.comp_def]
+
+theorem answered_withPulls : ∀ (ops : List Op) (w : Client × State), Fits ops → Answered w (withPulls ops) := by
+  intro ops
+  induction ops with
+  | nil => intro w _; trivial
+  | cons op ops ih =>
+    intro w hF
+    have hF' : Fits ops := fun m hm => hF m (List.mem_cons_of_mem _ hm)
+    refine ⟨?_, ih _ hF'⟩
+    cases op with
+    | disk u t => trivial
+    | msg m => exact ⟨hF m List.mem_cons_self, pullsRun_le _ _ _ _⟩
+
+/-- **The bridge.** The canonical sequential schedule `seqActs c ops` (what the driver op `srvseq`
+hands to `runMacro`) run from an idle server ends idle in the state `seqRun` computes. -/
+theorem macro_is_seq (ops : List Op) (c : Client) (s : State) (nid : Nat) (hF : Fits ops) :
+    runMacro (idleSys s nid) (seqActs c ops) = idleSys (seqRun (c, s) ops).2 (nid + msgCount ops) ∧
+    (seqActs c ops).foldl clientOfAct c = (seqRun (c, s) ops).1 := by
+  have := macro_is_seq_N (withPulls ops) c s nid (answered_withPulls ops (c, s) hF)
+  rw [withPulls_fst, ← seqActs_eq_N] at this
+  exact this
+
+/-! ### which programs fit -/
+
+theorem reread_length (u : Url) : (rereadAndPublish u).length = 9 := rfl
+
+theorem flatMap_reread_length (order : List Url) :
+    (order.flatMap rereadAndPublish).length = 9 * order.length := by
+  induction order with
+  | nil => rfl
+  | cons u us ih => simp only [List.flatMap_cons, List.length_append, reread_length, ih, List.length_cons]; omega
+
+/-- only `didChangeConfiguration` has a program of unbounded length: 2 + 9 segments per key -/
+theorem prog_length (m : Msg) :
+    (prog m).1.length = match m with
+      | .didChangeConfiguration _ order => 2 + 9 * order.length
+      | .didOpen .. | .didChange .. => 8
+      | .didSave _ => 9
+      | .addUser .. | .addFile .. => 11
+      | .ignore _ => 3
+      | .didClose _ | .deleted _ => 1
+      | .noop => 0 := by
+  cases m with
+  | didChangeConfiguration k order =>
+    simp only [prog, List.length_cons, flatMap_reread_length]; omega
+  | _ => rfl
+
+/-- a history fits when no configuration handler iterates over more than 454 keys -/
+theorem fits_of_orders (ops : List Op)
+    (h : ∀ k order, Op.msg (.didChangeConfiguration k order) ∈ ops → order.length ≤ 454) : Fits ops := by
+  intro m hm
+  rw [prog_length]
+  cases m <;> simp only [settleFuel] <;> try omega
+  next k order => have := h k order hm; omega
+
+/-! ### how many configuration requests a program holds -/
+
+theorem pullCount_append (a b : List Seg) : pullCount (a ++ b) = pullCount a + pullCount b := by
+  induction a with
+  | nil => simp [pullCount]
+  | cons seg a ih => cases seg <;> simp only [List.cons_append, pullCount, ih] <;> omega
+
+theorem pullCount_rereads (order : List Url) : pullCount (order.flatMap rereadAndPublish) = order.length := by
+  induction order with
+  | nil => rfl
+  | cons u us ih =>
+    rw [List.flatMap_cons, pullCount_append, ih]
+    simp [rereadAndPublish, update, publishSegs, pullCount]
+    omega
+
+/-- one request per document update: one for `didOpen` / `didChange` / `didSave` / the two
+add-to-dictionary commands, one per key for `didChangeConfiguration`, none otherwise -/
+theorem pullCount_prog (m : Msg) :
+    pullCount (prog m).1 = match m with
+      | .didChangeConfiguration _ order => order.length
+      | .didOpen .. | .didChange .. | .didSave _ | .addUser .. | .addFile .. => 1
+      | _ => 0 := by
+  cases m with
+  | didChangeConfiguration k order => simp only [prog, pullCount, pullCount_rereads]
+  | _ => rfl
+
 end Harper.Server
